@@ -829,7 +829,7 @@ def main(rep: Report, replay: dict | None) -> None:
         "#chunks, payload kinds)"
     )
     renderkit.setup("c03")
-    _dir = imgs.TMP / "c03"
+    _dir = renderkit._cache_dir  # per-process scratch directory (removed at exit)
     thorough = rep.tier == "thorough"
 
     if replay and replay.get("scenario", {}).get("kind") == "chunks":
